@@ -160,9 +160,15 @@ def run_case(spec, hist, compress, mode_whole, mode, env=None):
         after_flat = scen.loads(r_flat.data) if r_flat.status_code == 200 else {"_status": r_flat.status_code}
         im2 = app2._instance_manager
         after_state = copy.deepcopy(im2._instances[inst]["instance"].session_state) if inst in im2._instances else None
+        # "reproduces the session": the restored session also CONTINUES like the original one (a restore that looks right
+        # but has brought the models to a different point shows in the next step)
+        nb = c.post("/%s/run-step" % inst)
+        na = c2.post("/%s/run-step" % inst)
+        next_before = scen.loads(nb.data) if nb.status_code == 200 else {"_status": nb.status_code}
+        next_after = scen.loads(na.data) if na.status_code == 200 else {"_status": na.status_code}
         return {"statuses": statuses, "before_results": before_results, "after_results": after_results,
                 "before_flat": before_flat, "after_flat": after_flat,
-                "before_state": before_state, "after_state": after_state}
+                "before_state": before_state, "after_state": after_state, "next_before": next_before, "next_after": next_after}
     finally:
         shutil.rmtree(d, ignore_errors=True)
 
@@ -189,6 +195,10 @@ def compare(obs, pc, timeout_s, numeric=False):
     r = deep_equal(obs["before_flat"], obs["after_flat"], pc, timeout_s, numeric, "flat-session-results")     # lists: order matters
     if r:
         return r
+    if "next_before" in obs:
+        r = deep_equal(norm_inner(obs["next_before"]), norm_inner(obs["next_after"]), pc, timeout_s, numeric, "next-step")
+        if r:
+            return r
     # the restored logs must also list their steps in time order (everything that iterates them relies on it)
     for lg in ("settings_log", "results_log"):
         ks = [float(k) for k in a[lg].keys()]
